@@ -286,6 +286,14 @@ class C13(AAdapterProp):
                 cases.append(mk_achain(s1, ascripts(rng, rng.randrange(0, 4)), s2, ascripts(rng, rng.randrange(0, 4)), ws, ops, "random"))
             else:
                 cases.append(mk_atake(rng.choice([0, 1, 3, 100, U64]), s2, ascripts(rng, rng.randrange(0, 4)), ws, ops, "random"))
+        # search directed by the source: a literal / a narrow counter type -> that many consecutive calls on ONE adapter instance
+        from . import dictionary
+        for v in dictionary.exact():
+            if 256 <= v <= 70000:
+                for op in (("W", (7,)), ("F",), ("S",)):
+                    ops = [op] * (v + 2) + [("W", (1, 2)), ("F",)]
+                    cases.append(mk_achain([65], [], [97, 98], [], [], ops, "dictionary"))
+                    cases.append(mk_atake(5, [97, 98], [], [], ops, "dictionary"))
         return cases
 
     def check(self, case, trace, prof):
